@@ -60,6 +60,8 @@ func checkC02Write(c c02WriteCase) string {
 	s := toSubtitlesVTT(c.Doc)
 	if c.Foreign {
 		addForeignMetadata("vtt", s)
+		addForeignAttributes("vtt", s)
+		priorFailedWrite("vtt", 5+len(s.Items)*37, len(s.Items)%3)
 	}
 	var buf bytes.Buffer
 	err := s.WriteToWebVTT(&buf)
